@@ -1100,7 +1100,8 @@ func (dsc *dataStoreCommand) dictScanUnlocked(data *redisDict, cursor uint32, pa
 	count int,
 	isMatch func(item *redisDictItem) any) (output respValue) {
 	result := make([]any, 2)
-	matches := make([]any, 0, count)
+	// (the client's COUNT is a hint, not an allocation size)
+	matches := make([]any, 0, min(count, len(data.buckets)))
 
 	highBit := uint32(len(data.buckets)) // always a power of 2
 	shift := 32 - bitPosition(highBit)
@@ -1317,7 +1318,7 @@ func (dsc *dataStoreCommand) lpop(keyName string, count int) (values [][]byte, e
 		return
 	}
 
-	values = make([][]byte, 0, count)
+	values = make([][]byte, 0, min(count, list.count))
 
 	for ; count > 0; count-- {
 		item := list.head
@@ -1422,7 +1423,7 @@ func (dsc *dataStoreCommand) rpop(keyName string, count int) (values [][]byte, e
 		return
 	}
 
-	values = make([][]byte, 0, count)
+	values = make([][]byte, 0, min(count, list.count))
 
 	for ; count > 0; count-- {
 		item := list.tail
@@ -1678,7 +1679,7 @@ func (dsc *dataStoreCommand) lmpop(keyNames []string, left bool, count int) (out
 	defer dsc.unlock()
 
 	var result []any
-	elements := make([]any, 0, count)
+	elements := make([]any, 0, min(count, 64))
 
 	for _, keyName := range keyNames {
 		list, err := dsc.getListUnlocked(keyName)
@@ -2276,7 +2277,7 @@ func (dsc *dataStoreCommand) getHashTableRandField(keyName string, count *int, w
 		}
 
 		// strange redis behavior - RESP2 returns flat array, RESP3 returns array of pairs (a pair is an array of 2)
-		pairs := make(respPairs, 0, arraySize)
+		pairs := make(respPairs, 0, len(items))
 		for _, item := range items {
 			pair := respPair{
 				key:   nativeValueToResp(item.key),
@@ -2286,7 +2287,7 @@ func (dsc *dataStoreCommand) getHashTableRandField(keyName string, count *int, w
 		}
 		output.data = pairs
 	} else {
-		a := make([]string, 0, arraySize)
+		a := make([]string, 0, len(items))
 		for _, item := range items {
 			a = append(a, item.key)
 		}
@@ -2550,7 +2551,7 @@ func (dsc *dataStoreCommand) getSetRandMember(keyName string, count *int) (outpu
 		items = m.pickUniqueRandomItems(arraySize, 85)
 	}
 
-	a := make([]string, 0, arraySize)
+	a := make([]string, 0, len(items))
 	for _, item := range items {
 		a = append(a, item.key)
 	}
